@@ -1,6 +1,6 @@
 CONSTANTS
   Kind = "HeaderSet"
-  Keys <- KeysHS
+  Keys <- KeysHS5
   Vals <- Vals12
   MaxList = 2
   MaxEnt = 3
